@@ -7,6 +7,7 @@ RULE = ("seeded instance descriptions: valid single-label names (letters, digits
         "values (including the empty map); sequences of announcements from several peers, the discoverer's own instance, other "
         "services and names that are not strict subdomains of the watched service; the same as wire datagrams with records split between the answer and additional sections, including the discoverer's own looped-back announcement; all strings <= 5 over {a . \\ e-acute} plus seeded "
         "ones for escape / unescape. Oracle: the reported set equals the advertised one. non-trivial = an instance is reported")
+CANNOT_EXHIBIT = ["sockets and threads; the tokio listener's copy of add_response_to_resources is driven next to the sync one (outputs must be identical)"]
 INFO = {}
 NAMES = ["a", "b", "inst1", "my-inst", "_x", "a_b", "Z9", "x" * 63, "me"]
 BADNAMES = ["a.b", "a b", "-a", "a-", "é", "", "a\\b", "x" * 64]
